@@ -239,11 +239,11 @@ def _execute_cross(scn: Dict[str, Any]) -> Dict[str, Any]:
             writer_extra = {"pending": bool(emu._irq_pending), "in_interrupt": bool(emu._in_interrupt)}
             emu.save_snapshot(path)
             out = host().call([["m.new", 0, {"expand": machine.rs_expand(scn)}], ["m.load", 0, path], ["m.obs", 0, watch], ["m.lcd", 0],
-                               ["m.timerstate", 0], ["m.read", 0, 0x100000, 256]])
+                               ["m.timerstate", 0], ["m.read", 0, 0x100000, 256], ["m.kbstate", 0]])
             loaded, robs, lcd, tm, imem = out[0], out[1], out[2], out[3], out[4]
             reader_final = {"lcd": {"meta": machine._canon_lcd_meta((lcd or {}).get("meta")), "vram": (lcd or {}).get("vram")},
                             "timer": {k: tm.get(k) for k in ("enabled", "mti", "sti", "next_mti", "next_sti")},
-                            "imem": imem}
+                            "imem": imem, "kb": _rs_kb(out[5])}
             reader_extra = {"pending": tm.get("pending"), "in_interrupt": tm.get("in_interrupt")}
         else:
             ops = machine.rs_setup_ops(scn, 0)
@@ -252,12 +252,13 @@ def _execute_cross(scn: Dict[str, Any]) -> Dict[str, Any]:
                 events.extend(machine.rs_event(op, 0, scn, machine.scratch_dir()))
             lo, hi = scn["prog"]["code"]
             ops.append(["m.run", 0, scn["boundaries"], events, watch, lo, hi])
-            ops += [["m.obs", 0, watch], ["m.lcd", 0], ["m.timerstate", 0], ["m.read", 0, 0x100000, 256], ["m.save", 0, path]]
+            ops += [["m.obs", 0, watch], ["m.lcd", 0], ["m.timerstate", 0], ["m.read", 0, 0x100000, 256], ["m.save", 0, path],
+                    ["m.kbstate", 0]]
             out = host().call(ops)
             writer_obs, lcd, tm, imem = out[1], out[2], out[3], out[4]
             writer_final = {"lcd": {"meta": machine._canon_lcd_meta((lcd or {}).get("meta")), "vram": (lcd or {}).get("vram")},
                             "timer": {k: tm.get(k) for k in ("enabled", "mti", "sti", "next_mti", "next_sti")},
-                            "imem": imem}
+                            "imem": imem, "kb": _rs_kb(out[5])}
             writer_extra = {"pending": tm.get("pending"), "in_interrupt": tm.get("in_interrupt")}
             fresh = machine.build_py_fresh(scn)
             loaded = {"loaded": True}
@@ -269,13 +270,13 @@ def _execute_cross(scn: Dict[str, Any]) -> Dict[str, Any]:
             rf = machine.py_final(fresh)
             reader_final = {"lcd": {"meta": rf["lcd"]["meta"], "vram": rf["lcd"]["vram"]},
                             "timer": {k: rf["timer"][k] for k in ("enabled", "mti", "sti", "next_mti", "next_sti")},
-                            "imem": rf["imem"]}
+                            "imem": rf["imem"], "kb": rf["kb"]}
             reader_extra = {"pending": bool(fresh._irq_pending), "in_interrupt": bool(fresh._in_interrupt)}
-            writer_final = {k: writer_final[k] for k in ("lcd", "timer", "imem")}
+            writer_final = {k: writer_final[k] for k in ("lcd", "timer", "imem", "kb")}
         if scn["direction"] == "py_to_rs":
             writer_final = {"lcd": {"meta": writer_final["lcd"]["meta"], "vram": writer_final["lcd"]["vram"]},
                             "timer": {k: writer_final["timer"][k] for k in ("enabled", "mti", "sti", "next_mti", "next_sti")},
-                            "imem": writer_final["imem"]}
+                            "imem": writer_final["imem"], "kb": writer_final["kb"]}
     finally:
         try:
             os.remove(path)
@@ -283,6 +284,16 @@ def _execute_cross(scn: Dict[str, Any]) -> Dict[str, Any]:
             pass
     return {"loaded": loaded, "writer_obs": writer_obs, "reader_obs": robs, "writer_final": writer_final,
             "reader_final": reader_final, "writer_extra": writer_extra, "reader_extra": reader_extra}
+
+
+def _rs_kb(kb) -> Dict[str, Any]:
+    """The Rust matrix's state in the vocabulary of machine.py_final (queued events in order, strobes, held keys and
+    the debounce/repeat counters of every key that is pressed or debounced)."""
+    snap = (kb or {}).get("snap") or {}
+    return {"fifo": (kb or {}).get("fifo"), "kol": snap.get("kol"), "koh": snap.get("koh"),
+            "pressed": sorted(snap.get("pressed_keys") or []),
+            "keys": {k: [v["pressed"], v["debounced"], v["press_ticks"], v["release_ticks"], v["repeat_ticks"]]
+                     for k, v in sorted((snap.get("key_states") or {}).items()) if v["pressed"] or v["debounced"]}}
 
 
 def _check_cross(scn: Dict[str, Any], hist: Dict[str, Any]) -> List[Dict[str, Any]]:
@@ -307,7 +318,7 @@ def _check_cross(scn: Dict[str, Any], hist: Dict[str, Any]) -> List[Dict[str, An
     if bool(w[O_PWR]) != bool(r[O_PWR]):
         V("cross_load", f"power state written={w[O_PWR]} loaded={r[O_PWR]}", field="power")
         return viols
-    for dev in ("lcd", "timer", "imem"):
+    for dev in ("lcd", "timer", "imem", "kb"):
         a, b = hist["writer_final"].get(dev), hist["reader_final"].get(dev)
         if a != b:
             sub = _first_diff(a, b)
